@@ -413,6 +413,25 @@ def run(rep, tier):
                 cases[key] = (cc, bname, sum(1 for k in cc if cc[k] != base[k]))
                 n_new += 1
         ball_sizes[bname] = {'radius': d, 'members': len(raw), 'distinct_new_after_canonicalisation': n_new}
+    # full cross of the dimensions whose code meets in one place (what a sweeper does at its first node, what the
+    # controller does to u[0] / f[0] on receive, how the end value is formed): sweeper family x quadrature type x coupling
+    # x end-point mode, on the 3-step single-level base (thorough: also two levels and 2 / 4 steps)
+    xbase = BASES['MSSDC-JACOBI']
+    n_new = 0
+    for sp in ('gi:dahl3', 'ex:dahl3', 'imex:dahl_imex', 'mi:split'):
+        for qt in dm['quad_type']:
+            for jac in (True, False):
+                for upd in (False, True):
+                    for P, L in ((3, 1),) if tier == 'quick' else ((3, 1), (2, 1), (4, 1), (3, 2)):
+                        c = dict(xbase, sp=sp, quad_type=qt, mssdc_jac=jac, do_coll_update=upd, P=P, L=L, M=3)
+                        if L > 1:
+                            c.update(predict='pfasst_burnin', mssdc_jac=True)
+                        cc = canonical(c)
+                        key = common.canon(cc)
+                        if key not in cases:
+                            cases[key] = (cc, 'MSSDC-JACOBI', sum(1 for k in cc if cc[k] != xbase[k]))
+                            n_new += 1
+    ball_sizes['cross sweeper x quadrature x coupling x end-point mode'] = {'distinct_new_after_canonicalisation': n_new}
     items = list(cases.values())
     common.rng('c01-order').shuffle(items)
     budget = common.Budget(75 if tier == 'quick' else 17 * 60)
